@@ -72,10 +72,8 @@ func run(raw json.RawMessage) (common.Case, error) {
 	}
 	mint, maxt := metas[0].MinTime, metas[len(metas)-1].MaxTime
 	nc := downsample.VerifC38TargetChunkCount(mint, maxt, in.Res1, in.Res2, numSamples)
-	if nc < 1 || len(acs)/nc == 0 {
-		// batch size 0: downsampleAggrLoop would never terminate (see report); never generated on purpose
-		return c, fmt.Errorf("batch size 0 (len=%d numChunks=%d): not run", len(acs), nc)
-	}
+	// nc > len(acs) ("more target chunks than chunks") is run too: as found the batch size was
+	// then 0 and downsampleAggrLoop never returned (the case times out: sig "hang").
 	outMetas, err := downsample.VerifC38DownsampleAggr(acs, mint, maxt, in.Res1, in.Res2)
 	if err != nil {
 		return c, fmt.Errorf("downsampleAggr: %w", err)
@@ -93,6 +91,9 @@ func run(raw json.RawMessage) (common.Case, error) {
 	c.Class = fmt.Sprintf("res=%d->%d parts=%s", in.Res1, in.Res2, bucket(len(out)))
 	if len(in.Drop) > 0 {
 		c.Class = "dropped-aggregates"
+	}
+	if nc > len(acs) {
+		c.Class = "more-targets-than-chunks"
 	}
 	c.Nontrivial = rows >= 2 && len(ins) >= 1 && len(in.Drop) == 0
 	// Go-side search aid: totals
@@ -165,6 +166,12 @@ func gen(r *rand.Rand, tier string, n int) []any {
 			in.Res2 = in.Res1 * common.Pick(r, int64(2), 3, 12, 5)
 		}
 		in.Samples = downsampleutil.GenRaw(r, tier, in.Res1, false)
+		if r.Intn(20) == 0 {
+			// outside the 5m -> 1h domain: hourly first level with one row per window gives
+			// huge chunks, so targetChunkCount exceeds the number of chunks (batch size clamp)
+			in.Res1, in.Res2 = 3600000, 7200000
+			in.Samples = downsampleutil.GenDense(r, in.Res1, 300+r.Intn(300))
+		}
 		if in.Res1 < 60000 && r.Intn(2) == 0 {
 			// many first-level rows and chunks, so that the second level is cut into several parts
 			in.Samples = downsampleutil.GenDense(r, in.Res1, 300+r.Intn(500))
